@@ -9,6 +9,13 @@ Theorem mark_model_matches_source :
 Proof. exact MarkSource.source_switches. Qed.
 Print Assumptions mark_model_matches_source.
 
+(* GC_Recurse / GC_Mark_Item have no early exit besides the leaf-type, prefilter, end-of-probe and
+   already-traced ones the model transcribes — no nesting-depth cap (the mark phase of the model has no depth
+   bound; the depth the C code can reach is limited by the C stack only: modelled-not-verified, finding F1) *)
+Theorem tracer_has_no_other_exit : gc_recurse_returns = 2 /\ gc_mark_item_returns = 3.
+Proof. exact MarkSource.source_tracer_exits. Qed.
+Print Assumptions tracer_has_no_other_exit.
+
 Theorem threshold_model_matches_source : gc_threshold_shape_ok = true /\ gc_finaliser_alloc_widens = true.
 Proof. exact MarkSource.source_threshold. Qed.
 Print Assumptions threshold_model_matches_source.
